@@ -222,6 +222,26 @@ PROPS['C05'] = {
 }
 for _u in PROPS['C05']['units']:
     PROPS['C07']['units'].append(_u)
+PROPS['C04'] = {
+    'units': ['opt_ts', 'opt_kotlin', 'opt_scala', 'opt_go'],
+    'title': 'a generated member is optional iff the Rust field is Option<T> or has the bare serde(default) (member-writer kernel)',
+    'technique': 'Verus postconditions on the member writers TypeScript::write_field, Kotlin::write_element, Scala::write_element and Go::write_field '
+                 '(extracted verbatim) over a ghost text sink: every write! / writeln! / format! site is verified through a contract generated from its '
+                 'literal, the optional-marker conditions stay verbatim in the verified text',
+    'level_text': 'For every field (any type, any attributes as recorded in the IR, any type override, any generic parameters, every configuration): '
+                  'the text the writer appends contains the member in the target\'s notation - name, optional marker, type text - where the marker is '
+                  'present exactly when the Rust type is Option<T> or has_default is set (TypeScript `?`, plus `| null` exactly for Option<Option<T>>; '
+                  'Kotlin ` = null` / `? = null`; Scala ` = None`; Go `*` + `,omitempty` in the json tag), and the type text is the override or a '
+                  'translation of the Rust type in the sense of C05 - the marker never changes it.',
+    'level_note': 'Kernel: four of the six back ends\' struct-member writers. Swift (member lines inside write_struct) and Python (write_field), '
+                  'newtype-variant payloads, aliases, and that has_default is set exactly for the bare serde(default) (syn) are NOT proved: bounded '
+                  'stand-in opt-search only. format_type is used through the contract proved in the fmt units. Known finding carved out: Scala writes a '
+                  'non-Option member with serde(default) as `T = _` (pinned by a snapshot).',
+    'design_ref': 'DESIGN.md section 10.10',
+    'bounded': ['optsearch'],
+}
+for _u in PROPS['C04']['units']:
+    PROPS['C07']['units'].append(_u)
 PROPS['C03']['bounded'] = ['merge', 'tos']
 PROPS['C06']['bounded'] = ['merge', 'cli_determinism']
 PROPS['C11']['bounded'] = ['topo', 'deps']
@@ -232,7 +252,7 @@ PROPS['C18']['bounded'] = ['kint']
 PROPS['C20']['bounded'] = ['cfg_all', 'cli_config']
 PROPS['C07']['bounded'] = ['rename', 'topo', 'cli_robust']
 
-NOT_APPLICABLE = {k: NA_TEXT for k in ['C04', 'C08', 'C10', 'C12', 'C14', 'C15', 'C19']}
+NOT_APPLICABLE = {k: NA_TEXT for k in ['C08', 'C10', 'C12', 'C14', 'C15', 'C19']}
 
 ALL_UNITS = sorted({u for p_ in PROPS.values() for u in p_.get('units', [])})
 ALL_KANI = ['kint']
